@@ -246,6 +246,14 @@ impl ServerRef {
     }
 }
 
+#[cfg(feature = "verif")]
+impl ServerRef {
+    /// Verification hook: a `ServerRef` over an in-process core without sockets.
+    pub fn verif_new(core_ref: CoreRef, comm_ref: CommSenderRef) -> Self {
+        ServerRef { core_ref, comm_ref }
+    }
+}
+
 #[allow(clippy::too_many_arguments)]
 pub fn server_start(
     listener: TcpListener,
